@@ -120,7 +120,7 @@ package ovsdb
 // ---- error.go (C12): typed error <-> wire result ---------------------------------
 
 //@ func ResultFromError
-//@ requires err != nil && ptrof(err) != nil
+//@ requires err != nil
 //@ modifies nothing
 //@ may_panic
 //@ ensures result.Error != "" && result.Count == 0 && len(result.Rows) == 0
@@ -151,3 +151,43 @@ package ovsdb
 //@ ensures r.Error == "aborted" ==> (istype(result, "*Aborted") && fresh(unbox(result, "*Aborted")) && unbox(result, "*Aborted").details == r.Details && unbox(result, "*Aborted").operation == op)
 //@ ensures r.Error == "not owner" ==> (istype(result, "*NotOwner") && fresh(unbox(result, "*NotOwner")) && unbox(result, "*NotOwner").details == r.Details && unbox(result, "*NotOwner").operation == op)
 //@ ensures r.Error != "" && r.Error != "referential integrity violation" && r.Error != "constraint violation" && r.Error != "resources exhausted" && r.Error != "I/O error" && r.Error != "duplicate uuid name" && r.Error != "domain error" && r.Error != "range error" && r.Error != "timed out" && r.Error != "not supported" && r.Error != "aborted" && r.Error != "not owner" ==> (istype(result, "*Error") && unbox(result, "*Error").name == r.Error && unbox(result, "*Error").details == r.Details)
+
+// ---- mutation validation (C19/C03): a zero divisor never reaches the arithmetic ----
+//@ func (*ColumnSchema).Mutable
+//@ pure
+//@ func validateMutationAtomic
+//@ modifies nothing
+//@ may_panic
+//@ ensures_ok (mutator == "/=" || mutator == "%=") && istype(value, "int") ==> unbox(value, "int") != 0
+//@ func ValidateMutation
+//@ requires column != nil
+//@ modifies nothing
+//@ may_panic
+//@ ensures_ok (mutator == "/=" || mutator == "%=") && istype(value, "int") ==> unbox(value, "int") != 0
+
+//@ func NewErrWrongType
+//@ modifies nothing
+//@ ensures result != nil
+//@ func NewConstraintViolation
+//@ modifies nothing
+//@ ensures result != nil
+//@ func NewReferentialIntegrityViolation
+//@ modifies nothing
+//@ ensures result != nil
+
+//@ func NativeType
+//@ pure
+//@ may_panic
+//@ func NativeTypeFromAtomic
+//@ trusted "returns the package-level reflect.Type values initialised from reflect.TypeOf(0), 0.0, true, \"\""
+//@ pure
+//@ may_panic
+//@ ensures basicType == "integer" ==> result == rtypeof("int")
+//@ ensures basicType == "real" ==> result == rtypeof("float64")
+//@ ensures basicType == "boolean" ==> result == rtypeof("bool")
+//@ ensures basicType == "string" || basicType == "uuid" ==> result == rtypeof("string")
+
+// OvsToNativeAtomic (C19/C09): never panics on any wire value, null included.
+//@ func OvsToNativeAtomic
+//@ requires basicType == "integer" || basicType == "real" || basicType == "boolean" || basicType == "string" || basicType == "uuid"
+//@ modifies nothing
